@@ -121,7 +121,7 @@ class Group(object):
 class Ty(object):
     __slots__ = ('kind', 'tag', 'named', 'rng', 'enum_root', 'enum_ext', 'named_bits',
                  'size', 'alpha', 'root', 'ext', 'root2', 'elem', 'elem_name', 'ref',
-                 'ref_mod', 'wc', 'uid')
+                 'ref_mod', 'wc', 'uid', 'raw')
 
     def __init__(self, kind, **kw):
         self.kind = kind
@@ -142,6 +142,8 @@ class Ty(object):
         self.ref_mod = None      # module the reference is written in (filled by Spec.link)
         self.wc = None           # REAL WITH COMPONENTS: (mlo, mhi, base, elo, ehi)
         self.uid = None
+        self.raw = None          # printed instead of the structure (COMPONENTS OF etc.); the
+        #                          structure then only describes the value space
         for k, v in kw.items():
             setattr(self, k, v)
 
@@ -348,6 +350,8 @@ def print_members(t, ind):
 
 
 def print_type(t, ind=''):
+    if t.raw is not None:
+        return t.raw
     s = ''
     if t.tag is not None:
         s += t.tag.text() + ' '
